@@ -357,12 +357,16 @@ def run(ctx):
         else:
             r.bad("body", "spawned threads do not run Worker::run", fn=vis[0])
 
-    with ctx.rule("C07.QUIT", "no answer of a visitor is dropped: it is returned or tested, so a Quit always reaches Worker::run", floor=10,
+    # (floor: every one of the three functions calls the visitor at least once, and run_one calls generate_work; the number of
+    # visitor calls beyond that is a matter of how the error returns are written — ten on the reference tree)
+    with ctx.rule("C07.QUIT", "no answer of a visitor is dropped: it is returned or tested, so a Quit always reaches Worker::run", floor=4,
                   kind="USED") as r:
         from ..graph import classify_result
         n_ = 0
         for name in (WK + "::run_one", WK + "::generate_work", "ignore::walk::WalkParallel::visit"):
             g = facts.fn(name)
+            if not any(c_.func.get("name") == "visit" and "Visitor" in str(c_.func.get("trait")) for c_ in g.calls()):
+                r.bad("%s|visit" % name.split("::")[-1], "anchor-missing: %s no longer calls the visitor" % name, fn=g)
             for i, c in enumerate(c_ for c_ in g.calls() if c_.func.get("name") == "visit" and "Visitor" in str(c_.func.get("trait"))):
                 v_, d_ = classify_result(g, c)
                 key = "%s|visit|%d" % (name.split("::")[-1], i)
